@@ -68,7 +68,9 @@ def client_case(draw: t.Any) -> t.Dict[str, t.Any]:
 def stream_case(draw: t.Any) -> t.Dict[str, t.Any]:
     case = draw(st.one_of(server_case(), client_case()))
     n = len(case["msgs"])
-    case["libenc"] = draw(st.lists(st.booleans(), min_size=n, max_size=n))
+    # per message: the library's encoder, the reference encoder, or the reference encoder with generated length forms
+    enc = st.one_of(st.booleans(), st.booleans(), st.tuples(st.just("forms"), st.lists(st.integers(0, 255), min_size=4, max_size=16)))
+    case["libenc"] = draw(st.lists(enc, min_size=n, max_size=n))
     # cuts are drawn as fractions of the (not yet known) stream length plus the extreme schedules
     mode = draw(st.sampled_from(["one", "bytes", "cuts", "cuts", "cuts", "cuts"]))
     case["mode"] = mode
@@ -104,7 +106,10 @@ def build(case: t.Dict[str, t.Any]) -> t.Tuple[t.Callable[[], t.Any], t.List[t.D
     opts = absval.default_options()
     parts = []
     for m, libenc in zip(msgs, case["libenc"]):
-        parts.append(absval.to_lib(m).pack(opts) if libenc else rfc4511.encode(m))
+        if isinstance(libenc, tuple):
+            parts.append(rfc4511.encode(m, rfc4511.Knobs(libenc[1], kinds=("length",))))
+        else:
+            parts.append(absval.to_lib(m).pack(opts) if libenc else rfc4511.encode(m))
     cand = sorted({m["id"] for m in msgs} | set(ids))
     return (lambda: factory()[0]), msgs, b"".join(parts), cand
 
